@@ -454,6 +454,29 @@ func genScenario(e *env, r *rng, id string, withFaultyPre bool) scenario {
 			}
 		}
 	}
+	// other installations of the same agent further up: in an ancestor of the current directory
+	// (a sub-package of a project that has the skill at its top) and in the home directory
+	if r.chance(1, 4) {
+		var others []string
+		if anc := filepath.Dir(s.Cwd); anc != s.Cwd {
+			if b, ok := e.expectedBase(s.Agent, "", false, anc, s.Home); ok {
+				others = append(others, b)
+			}
+		}
+		if b, ok := e.expectedBase(s.Agent, "", true, s.Cwd, s.Home); ok && s.Home != "" {
+			others = append(others, b)
+		}
+		for _, ob := range others {
+			osk := simos.Clean(ob + "/" + e.skillDir)
+			if osk == skill || strings.HasPrefix(osk, skill+"/") || strings.HasPrefix(skill, osk+"/") || strings.HasPrefix(base+"/", simos.Clean(ob)+"/") || s.BaseLink != "" {
+				continue
+			}
+			add("same_agent_installed_in_ancestor_or_home")
+			for _, rel := range e.rels {
+				s.Pre = append(s.Pre, preOp{Op: "write", Path: osk + "/" + rel, Data: "OTHER INSTALL " + rel + " " + nonce + "\n", Mode: 0o644})
+			}
+		}
+	}
 	if withFaultyPre && r.chance(1, 6) {
 		// states in which even a fault-free installation cannot succeed
 		switch r.intn(5) {
@@ -831,7 +854,7 @@ type stats struct {
 	baseFail                                                 int
 }
 
-var errnos = []string{"EIO", "ENOSPC", "EACCES", "EMFILE", "EROFS", "EDQUOT"}
+var errnos = []string{"EIO", "ENOSPC", "EACCES", "EMFILE", "EROFS", "EDQUOT", "EINTR", "EAGAIN"}
 
 // enumerate builds every single-fault plan for a run of L steps.
 func enumerate(d *simos.Disk) [][]simos.Fault {
@@ -848,6 +871,8 @@ func enumerate(d *simos.Disk) [][]simos.Fault {
 				plans = append(plans, []simos.Fault{{Step: o.Step, Kind: "short", N: n, Errno: "ENOSPC"}}, []simos.Fault{{Step: o.Step, Kind: "short", N: n, Errno: "EIO"}})
 			}
 			plans = append(plans, []simos.Fault{{Step: o.Step, Kind: "short", N: 0, Errno: "EDQUOT"}})
+			// an interrupted write: part of the payload is on disk, the call reports a retryable error
+			plans = append(plans, []simos.Fault{{Step: o.Step, Kind: "short", N: -2, Errno: "EINTR"}}, []simos.Fault{{Step: o.Step, Kind: "short", N: 1, Errno: "EAGAIN"}})
 		}
 	}
 	return plans
